@@ -8,6 +8,34 @@ import copy
 
 from hypothesis import strategies as st
 
+
+_INTS = {}
+_INDEX = {}
+_BOOL = st.booleans()
+
+
+def rint(draw, lo, hi):
+    """rint(draw, lo, hi) with the strategy object cached."""
+    key = (lo, hi)
+    strategy = _INTS.get(key)
+    if strategy is None:
+        strategy = _INTS[key] = st.integers(lo, hi)
+    return draw(strategy)
+
+
+def pick(draw, seq):
+    """pick(draw, seq) without building a strategy per call."""
+    seq = list(seq)
+    strategy = _INDEX.get(len(seq))
+    if strategy is None:
+        strategy = _INDEX[len(seq)] = st.sampled_from(range(len(seq)))
+    return seq[draw(strategy)]
+
+
+def flip(draw):
+    return draw(_BOOL)
+
+
 NUM_NAMES = ['a', 'b', 'c', 'x', 'y', 'z']
 COUNTERS = ['i', 'j', 'k', 'n']
 LIGHT_VARS = ['lt1', 'lt2', 'lt3']
@@ -42,14 +70,18 @@ def profile(**overrides):
 
 # ---- populations --------------------------------------------------------------
 LABELS = ['A', 'B', 'C', 'D', 'E', 'F', 'Top Left', 'z9']
-GROUPS = ['G1', 'G2', 'G3']
-LOCATIONS = ['L1', 'L2']
+# Group and location names overlap on purpose (a group and a location may
+# share a name and have different members), and 'G1' is also used as the name
+# of a light that does not exist.
+GROUPS = ['G1', 'G2', 'X']
+LOCATIONS = ['L1', 'X', 'G1']
 
 
 @st.composite
 def populations(draw, max_size=6, need=()):
     max_size = min(max_size, len(LABELS))
-    count = draw(st.integers(0, max_size))
+    count = pick(draw, [n for n in (0, 1, 2, 3, 3, 4, 4, 5, 5, 6, 7, 8)
+                        if n <= max_size])
     labels = draw(st.permutations(LABELS))[:count]
     specs = []
     kinds = list(need)
@@ -57,20 +89,20 @@ def populations(draw, max_size=6, need=()):
         if kinds:
             kind = kinds.pop()
         else:
-            kind = draw(st.sampled_from(
-                ['plain', 'plain', 'plain', 'mz', 'matrix']))
+            kind = pick(draw, 
+                ['plain', 'plain', 'plain', 'mz', 'matrix'])
         spec = {'label': label,
-                'group': draw(st.sampled_from(GROUPS)),
-                'location': draw(st.sampled_from(LOCATIONS)),
+                'group': pick(draw, GROUPS),
+                'location': pick(draw, LOCATIONS),
                 'kind': kind,
-                'color': [draw(st.integers(0, 65535)) for _ in range(3)] + [
-                    draw(st.integers(1500, 9000))],
-                'power': draw(st.sampled_from([0, 65535]))}
+                'color': [rint(draw, 0, 65535) for _ in range(3)] + [
+                    rint(draw, 1500, 9000)],
+                'power': pick(draw, [0, 65535])}
         if kind == 'mz':
-            spec['zones'] = draw(st.sampled_from([1, 2, 5, 8, 16, 82]))
+            spec['zones'] = pick(draw, [1, 2, 5, 8, 16, 82])
         elif kind == 'matrix':
-            height, width = draw(st.sampled_from(
-                [(6, 5), (11, 5), (1, 1), (2, 3), (8, 8), (16, 4), (3, 7)]))
+            height, width = pick(draw, 
+                [(6, 5), (11, 5), (1, 1), (2, 3), (8, 8), (16, 4), (3, 7)])
             spec['height'], spec['width'] = height, width
         specs.append(spec)
     return specs
@@ -184,17 +216,17 @@ def may_assign(env, routine_name, seen=None):
 
 # ---- literals ----------------------------------------------------------------------
 def int_lit(draw, lo=0, hi=20):
-    return ['num', str(draw(st.integers(lo, hi)))]
+    return ['num', str(rint(draw, lo, hi))]
 
 
 def float_lit(draw):
-    whole = draw(st.integers(0, 120))
-    frac = draw(st.sampled_from(['0', '5', '25', '75', '125', '1', '3', '7']))
+    whole = rint(draw, 0, 120)
+    frac = pick(draw, ['0', '5', '25', '75', '125', '1', '3', '7'])
     return ['num', '{}.{}'.format(whole, frac)]
 
 
 def maybe_neg(draw, lit):
-    if draw(st.integers(0, 9)) == 0:
+    if rint(draw, 0, 9) == 0:
         return ['neg', lit]
     return lit
 
@@ -231,48 +263,47 @@ def num_leaf(draw, env):
     if env.macros_num:
         choices.append('macro')
     choices.append('reg')
-    kind = draw(st.sampled_from(choices))
+    kind = pick(draw, choices)
     if kind == 'int':
         return maybe_neg(draw, int_lit(draw))
     if kind == 'float':
         return maybe_neg(draw, float_lit(draw))
     if kind == 'var':
-        name = draw(st.sampled_from(readable_nums(env)))
+        name = pick(draw, readable_nums(env))
         env.reads.add(name)
         return ['var', name]
     if kind == 'macro':
-        return ['macro', draw(st.sampled_from(sorted(env.macros_num)))]
-    return ['reg', draw(st.sampled_from(readable_regs(env)))]
+        return ['macro', pick(draw, sorted(env.macros_num))]
+    return ['reg', pick(draw, readable_regs(env))]
 
 
 def num_expr(draw, env, depth=None):
     if depth is None:
         depth = env.prof['expr_depth']
-    if depth <= 0 or draw(st.integers(0, 3)) == 0:
+    if depth <= 0 or rint(draw, 0, 3) == 0:
         return num_leaf(draw, env)
-    kind = draw(st.sampled_from(
-        ['bin', 'bin', 'bin', 'bin', 'neg', 'paren', 'call', 'builtin']))
+    kind = pick(draw, 
+        ['bin', 'bin', 'bin', 'bin', 'neg', 'paren', 'call', 'builtin'])
     if kind == 'bin':
-        op = draw(st.sampled_from(
-            ['+', '+', '-', '-', '*', '*', '/', '%', '^']))
+        op = pick(draw, 
+            ['+', '+', '-', '-', '*', '*', '/', '%', '^'])
         left = num_expr(draw, env, depth - 1)
         if op == '/':
-            right = draw(st.sampled_from(['lit', 'lit', 'expr']))
-            right = (['num', str(draw(st.integers(1, 9)))] if right == 'lit'
+            right = pick(draw, ['lit', 'lit', 'expr'])
+            right = (['num', str(rint(draw, 1, 9))] if right == 'lit'
                      else num_expr(draw, env, depth - 1))
         elif op == '%':
-            left = ['num', str(draw(st.integers(0, 50)))] if draw(
-                st.booleans()) else ['paren', ['bin', '*', left, left]]
-            right = ['num', str(draw(st.integers(1, 9)))]
+            left = ['num', str(rint(draw, 0, 50))] if flip(draw) else ['paren', ['bin', '*', left, left]]
+            right = ['num', str(rint(draw, 1, 9))]
         elif op == '^':
-            left = draw(st.sampled_from([
-                ['num', str(draw(st.integers(0, 5)))],
+            left = pick(draw, [
+                ['num', str(rint(draw, 0, 5))],
                 num_leaf(draw, env),
-                ['paren', num_expr(draw, env, depth - 2)]]))
-            right = draw(st.sampled_from([
-                ['num', str(draw(st.integers(0, 3)))],
-                ['bin', '^', ['num', str(draw(st.integers(1, 2)))],
-                 ['num', str(draw(st.integers(0, 2)))]]]))
+                ['paren', num_expr(draw, env, depth - 2)]])
+            right = pick(draw, [
+                ['num', str(rint(draw, 0, 3))],
+                ['bin', '^', ['num', str(rint(draw, 1, 2))],
+                 ['num', str(rint(draw, 0, 2))]]])
         else:
             right = num_expr(draw, env, depth - 1)
         return ['bin', op, left, right]
@@ -281,14 +312,14 @@ def num_expr(draw, env, depth=None):
     if kind == 'paren':
         return ['paren', num_expr(draw, env, depth - 1)]
     if kind == 'call' and functions(env):
-        name = draw(st.sampled_from(functions(env)))
+        name = pick(draw, functions(env))
         return call_expr(draw, env, name, depth - 1)
     if kind == 'builtin':
-        name = draw(st.sampled_from(BUILTINS1))
+        name = pick(draw, BUILTINS1)
         arg = num_expr(draw, env, depth - 1)
         if name == 'sqrt':
             arg = ['bin', '*', arg, arg] if arg[0] != 'bin' else [
-                'num', str(draw(st.integers(0, 400)))]
+                'num', str(rint(draw, 0, 400))]
         return ['call', name, [arg]]
     return num_leaf(draw, env)
 
@@ -302,7 +333,7 @@ def call_expr(draw, env, name, depth):
     args = []
     for index, ptype in enumerate(info['ptypes']):
         if index == 0 and info.get('recursive'):
-            args.append(['num', str(draw(st.integers(0, 3)))])
+            args.append(['num', str(rint(draw, 0, 3))])
         elif ptype == 'name':
             args.append(light_name(draw, env))
         else:
@@ -311,12 +342,12 @@ def call_expr(draw, env, name, depth):
 
 
 def bool_expr(draw, env, depth=2):
-    kind = draw(st.sampled_from(
-        ['cmp', 'cmp', 'cmp', 'and', 'or', 'num', 'paren']))
+    kind = pick(draw, 
+        ['cmp', 'cmp', 'cmp', 'and', 'or', 'num', 'paren'])
     if depth <= 0:
         kind = 'cmp'
     if kind == 'cmp':
-        op = draw(st.sampled_from(['<', '<=', '>', '>=', '==', '!=']))
+        op = pick(draw, ['<', '<=', '>', '>=', '==', '!='])
         return ['bin', op, num_expr(draw, env, 1), num_expr(draw, env, 1)]
     if kind in ('and', 'or'):
         return ['bin', kind, bool_expr(draw, env, depth - 1),
@@ -340,23 +371,23 @@ def light_name(draw, env, kinds=None):
         options.append('macro')
     if env.light_defined:
         options += ['var', 'var']
-    kind = draw(st.sampled_from(options))
+    kind = pick(draw, options)
     if kind == 'label':
-        return ['str', draw(st.sampled_from(labels))]
+        return ['str', pick(draw, labels)]
     if kind == 'unknown':
-        return ['str', draw(st.sampled_from(['Nope', 'a', 'G1']))]
+        return ['str', pick(draw, ['Nope', 'a', 'G1'])]
     if kind == 'macro':
-        return ['macro', draw(st.sampled_from(sorted(env.macros_str)))]
-    name = draw(st.sampled_from(sorted(env.light_defined)))
+        return ['macro', pick(draw, sorted(env.macros_str))]
+    name = pick(draw, sorted(env.light_defined))
     env.reads.add(name)
     return ['var', name]
 
 
 def set_name(draw, env, which):
     names = GROUPS if which == 'group' else LOCATIONS
-    if draw(st.integers(0, 7)) == 0 and env.prof['unknown_names']:
+    if rint(draw, 0, 7) == 0 and env.prof['unknown_names']:
         return ['str', 'Nowhere']
-    return ['str', draw(st.sampled_from(names))]
+    return ['str', pick(draw, names)]
 
 
 def spec_of(env, name_expr):
@@ -377,14 +408,14 @@ def index_value(draw, env, lo, hi):
     """An rvalue whose run-time value is statically known to lie in lo..hi."""
     usable = [name for name, (a, b) in sorted(env.known.items())
               if lo <= a and b <= hi and name in env.defined]
-    kind = draw(st.sampled_from(['lit', 'lit', 'var', 'expr']))
+    kind = pick(draw, ['lit', 'lit', 'var', 'expr'])
     if kind == 'var' and usable:
-        name = draw(st.sampled_from(usable))
+        name = pick(draw, usable)
         env.reads.add(name)
         return ['var', name], None
-    value = draw(st.integers(lo, hi))
+    value = rint(draw, lo, hi)
     if kind == 'expr':
-        delta = draw(st.integers(0, min(3, value - lo)))
+        delta = rint(draw, 0, min(3, value - lo))
         return ['bin', '+', ['num', str(value - delta)],
                 ['num', str(delta)]], value
     return ['num', str(value)], value
@@ -393,42 +424,42 @@ def index_value(draw, env, lo, hi):
 def index_range(draw, env, size):
     """[first, last-or-None] within 0..size-1."""
     first, first_value = index_value(draw, env, 0, size - 1)
-    if draw(st.booleans()):
+    if flip(draw):
         return [first, None]
     lo = first_value
     if lo is None:
         lo = env.known[first[1]][1]
     last, _ = index_value(draw, env, lo, size - 1)
     if last[0] == 'var':      # keep first <= last provable
-        last = ['num', str(draw(st.integers(lo, size - 1)))]
+        last = ['num', str(rint(draw, lo, size - 1))]
     return [first, last]
 
 
 # ---- statements ----------------------------------------------------------------------------------
 def gen_setreg(draw, env):
-    reg = draw(st.sampled_from(
-        COLOR_REGS * 3 + ['duration', 'duration'] + RGB_REGS))
+    reg = pick(draw, 
+        COLOR_REGS * 3 + ['duration', 'duration'] + RGB_REGS)
     if reg in RGB_REGS:
-        value = draw(st.sampled_from(
+        value = pick(draw, 
             [int_lit(draw, 0, 100), ['num', '{}.5'.format(
-                draw(st.integers(0, 99)))]]))
+                rint(draw, 0, 99))]])
     elif reg == 'kelvin':
-        value = draw(st.sampled_from(
-            [int_lit(draw, 1500, 9000), num_expr(draw, env, 1)]))
+        value = pick(draw, 
+            [int_lit(draw, 1500, 9000), num_expr(draw, env, 1)])
     elif reg == 'duration':
-        value = draw(st.sampled_from(
-            [int_lit(draw, 0, 5), float_lit(draw), num_expr(draw, env, 1)]))
+        value = pick(draw, 
+            [int_lit(draw, 0, 5), float_lit(draw), num_expr(draw, env, 1)])
     else:
-        value = draw(st.sampled_from([
+        value = pick(draw, [
             int_lit(draw, 0, 360 if reg == 'hue' else 100), float_lit(draw),
-            num_expr(draw, env)]))
+            num_expr(draw, env)])
     return [['setreg', reg, value]]
 
 
 def gen_time(draw, env):
-    value = draw(st.sampled_from([
+    value = pick(draw, [
         ['num', '0'], int_lit(draw, 0, 5), float_lit(draw),
-        num_expr(draw, env, 1)]))
+        num_expr(draw, env, 1)])
     return [['setreg', 'time', value]]
 
 
@@ -437,18 +468,18 @@ PATTERNS = ['8:00', '9:30', '*:15', '1*:*5', '*3:0*', '23:59', '0:00', '*:*0',
 
 
 def gen_timeat(draw, env):
-    count = draw(st.sampled_from([1, 1, 2, 3]))
+    count = pick(draw, [1, 1, 2, 3])
     pats = []
     for _ in range(count):
-        if env.macros_pat and draw(st.booleans()):
-            pats.append(['macro', draw(st.sampled_from(env.macros_pat))])
+        if env.macros_pat and flip(draw):
+            pats.append(['macro', pick(draw, env.macros_pat)])
         else:
-            pats.append(['lit', draw(st.sampled_from(PATTERNS))])
+            pats.append(['lit', pick(draw, PATTERNS)])
     env.time_pattern = [True]
     out = [['timeat', pats]]
     # use it at once and return to a numeric time so that later unit switches
     # and reads of `time` stay defined
-    out.append(draw(st.sampled_from([['wait'], gen_action(draw, env)[0]])))
+    out.append(pick(draw, [['wait'], gen_action(draw, env)[0]]))
     out.append(['setreg', 'time', int_lit(draw, 0, 3)])
     env.time_pattern = [False]
     return out
@@ -463,7 +494,7 @@ def gen_operand(draw, env, kind):
         if prof['matrix'] and prof['w_matrix'] and env.matrix is None and (
                 prof['allow_matrix_in_routine'] or not env.in_routine()):
             options += ['matrix_inline', 'matrix_block'] * prof['w_matrix']
-    tag = draw(st.sampled_from(options))
+    tag = pick(draw, options)
     if tag == 'all':
         return ['all']
     if tag == 'light':
@@ -471,14 +502,12 @@ def gen_operand(draw, env, kind):
     if tag in ('group', 'location'):
         return [tag, set_name(draw, env, tag)]
     if tag == 'zone':
-        name = light_name(draw, env, kinds=('mz',) if draw(
-            st.integers(0, 4)) else None)
+        name = light_name(draw, env, kinds=('mz',) if rint(draw, 0, 4) else None)
         spec = spec_of(env, name)
         size = spec['zones'] if spec and spec.get('kind') == 'mz' else 4
         first, last = index_range(draw, env, size)
         return ['zone', name, first, last]
-    name = light_name(draw, env, kinds=('matrix',) if draw(
-        st.integers(0, 4)) else None)
+    name = light_name(draw, env, kinds=('matrix',) if rint(draw, 0, 4) else None)
     spec = spec_of(env, name)
     if spec and spec.get('kind') == 'matrix':
         dims = (spec['height'], spec['width'])
@@ -497,9 +526,9 @@ def gen_operand(draw, env, kind):
 
 
 def gen_rect(draw, env, dims):
-    rows = index_range(draw, env, dims[0]) if draw(st.integers(0, 3)) else None
-    cols = index_range(draw, env, dims[1]) if draw(st.integers(0, 3)) else None
-    order = draw(st.sampled_from(['rc', 'cr']))
+    rows = index_range(draw, env, dims[0]) if rint(draw, 0, 3) else None
+    cols = index_range(draw, env, dims[1]) if rint(draw, 0, 3) else None
+    order = pick(draw, ['rc', 'cr'])
     return rows, cols, order
 
 
@@ -510,9 +539,9 @@ def gen_stage(draw, env):
 
 def gen_matrix_body(draw, env):
     body = []
-    for _ in range(draw(st.integers(0, 4))):
-        kind = draw(st.sampled_from(
-            ['stage', 'stage', 'stage', 'setreg', 'assign', 'loop', 'if']))
+    for _ in range(rint(draw, 0, 4)):
+        kind = pick(draw, 
+            ['stage', 'stage', 'stage', 'setreg', 'assign', 'loop', 'if'])
         if kind == 'stage':
             body += gen_stage(draw, env)
         elif kind == 'setreg':
@@ -524,8 +553,8 @@ def gen_matrix_body(draw, env):
             if var is None:
                 continue
             size = env.matrix[0]
-            lo = draw(st.integers(0, size - 1))
-            hi = draw(st.integers(lo, size - 1))
+            lo = rint(draw, 0, size - 1)
+            hi = rint(draw, lo, size - 1)
             inner = enter_loop(env, 'range', var, (lo, hi))
             inner_body = gen_stage_with(draw, inner, var) + gen_setreg(
                 draw, inner)
@@ -543,19 +572,18 @@ def gen_matrix_body(draw, env):
 
 
 def gen_stage_with(draw, env, var):
-    cols = index_range(draw, env, env.matrix[1]) if draw(
-        st.booleans()) else None
+    cols = index_range(draw, env, env.matrix[1]) if flip(draw) else None
     return [['stage', [['var', var], None], cols,
-             draw(st.sampled_from(['rc', 'cr']))]]
+             pick(draw, ['rc', 'cr'])]]
 
 
 def gen_action(draw, env):
-    kind = draw(st.sampled_from(['set'] * 4 + ['on', 'off']))
+    kind = pick(draw, ['set'] * 4 + ['on', 'off'])
     if env.matrix is not None:
         return gen_stage(draw, env)
-    count = draw(st.sampled_from([1, 1, 1, 2, 3]))
+    count = pick(draw, [1, 1, 1, 2, 3])
     operands = [gen_operand(draw, env, kind) for _ in range(count)]
-    if kind == 'set' and draw(st.integers(0, 14)) == 0:
+    if kind == 'set' and rint(draw, 0, 14) == 0:
         operands = [['default']]
     if any(op[0] == 'all' for op in operands):
         operands = [op for op in operands if op[0] == 'all'][:1]
@@ -579,12 +607,12 @@ def gen_assign(draw, env):
     names = assignable(env)
     if not names:
         return []
-    name = draw(st.sampled_from(names))
+    name = pick(draw, names)
     if (env.in_routine() and env.loop_depth > 0 and
             name in env.scope['params'] and
             not env.prof['allow_param_assign_in_loop']):
         return []
-    if draw(st.integers(0, 3)) == 0:
+    if rint(draw, 0, 3) == 0:
         value = int_lit(draw, 0, 6)
         env.note_assigned(name)
         env.known[name] = (int(value[1]), int(value[1]))
@@ -599,7 +627,7 @@ def gen_light_assign(draw, env):
     names = [n for n in LIGHT_VARS if n not in env.active]
     if not names:
         return []
-    name = draw(st.sampled_from(names))
+    name = pick(draw, names)
     value = light_name(draw, env)
     env.light_defined.add(name)
     env.assigned.add(name)
@@ -607,24 +635,24 @@ def gen_light_assign(draw, env):
 
 
 def gen_print(draw, env):
-    kind = draw(st.sampled_from(['print', 'println', 'println', 'printf']))
+    kind = pick(draw, ['print', 'println', 'println', 'printf'])
     if kind == 'printf':
-        fields = draw(st.integers(0, 3))
+        fields = rint(draw, 0, 3)
         named = []
-        if readable_nums(env) and draw(st.booleans()):
-            named.append(draw(st.sampled_from(readable_nums(env))))
+        if readable_nums(env) and flip(draw):
+            named.append(pick(draw, readable_nums(env)))
             env.reads.add(named[-1])
-        if draw(st.booleans()):
-            named.append(draw(st.sampled_from(COLOR_REGS)))
+        if flip(draw):
+            named.append(pick(draw, COLOR_REGS))
         parts = ['{}'] * fields + ['{' + n + '}' for n in named]
         parts = draw(st.permutations(parts))
         fmt = ' '.join(['v'] + list(parts))
         return [['printf', ['str', fmt],
                  [num_expr(draw, env, 1) for _ in range(fields)]]]
-    value = draw(st.sampled_from([
+    value = pick(draw, [
         num_expr(draw, env, 2), bool_expr(draw, env, 1),
         ['str', 'text']] + ([['var', sorted(env.light_defined)[0]]]
-                            if env.light_defined else [])))
+                            if env.light_defined else []))
     if value[0] == 'var':
         env.reads.add(value[1])
     return [[kind, value]]
@@ -650,7 +678,7 @@ def gen_if(draw, env):
     then_body = gen_block(draw, then_env)
     else_body = None
     else_env = None
-    style = draw(st.sampled_from(['none', 'else', 'else', 'elif']))
+    style = pick(draw, ['none', 'else', 'else', 'elif'])
     if style != 'none':
         else_env = env.child()
         if style == 'elif':
@@ -686,7 +714,7 @@ def pick_loop_var(draw, env, pool=None):
     names = [n for n in pool if n not in env.active]
     if not names:
         return None
-    return draw(st.sampled_from(names))
+    return pick(draw, names)
 
 
 def enter_loop(env, kind, var=None, known=None, extra_active=()):
@@ -714,9 +742,9 @@ def gen_with_spec(draw, env, inner_active):
     var = pick_loop_var(draw, env)
     if var is None or var in inner_active:
         return None
-    if draw(st.booleans()):
+    if flip(draw):
         return ['range', var, num_expr(draw, env, 1), num_expr(draw, env, 1)]
-    start = None if draw(st.booleans()) else num_expr(draw, env, 1)
+    start = None if flip(draw) else num_expr(draw, env, 1)
     return ['cycle', var, start]
 
 
@@ -726,11 +754,11 @@ def gen_repeat(draw, env):
              'forever']
     if prof['light_loops']:
         kinds += ['all', 'groups', 'locations', 'list', 'list']
-    kind = draw(st.sampled_from(kinds))
+    kind = pick(draw, kinds)
     pre = []
     if kind == 'count':
-        style = draw(st.sampled_from(['lit', 'lit', 'var', 'expr']))
-        count_value = draw(st.integers(0, 4))
+        style = pick(draw, ['lit', 'lit', 'var', 'expr'])
+        count_value = rint(draw, 0, 4)
         if style == 'var':
             counter = pick_loop_var(draw, env, COUNTERS)
             if counter is None:
@@ -743,12 +771,12 @@ def gen_repeat(draw, env):
             env.note_assigned(counter)
             count = ['var', counter]
         else:
-            delta = draw(st.integers(0, count_value))
+            delta = rint(draw, 0, count_value)
             count = ['bin', '+', ['num', str(count_value - delta)],
                      ['num', str(delta)]]
         inner = enter_loop(env, kind)
         body = gen_block(draw, inner)
-        if style == 'var' and draw(st.booleans()):
+        if style == 'var' and flip(draw):
             # the limit is evaluated once: changing it in the body is harmless
             body.append(['assign', counter, ['num', '0']])
             inner.assigned.add(counter)
@@ -758,8 +786,8 @@ def gen_repeat(draw, env):
         var = pick_loop_var(draw, env)
         if var is None:
             return []
-        lo = draw(st.integers(-2, 5))
-        hi = draw(st.integers(-2, 5))
+        lo = rint(draw, -2, 5)
+        hi = rint(draw, -2, 5)
         inner = enter_loop(env, kind, var, (min(lo, hi), max(lo, hi)))
         body = gen_block(draw, inner)
         env.merge_nested(inner)
@@ -773,12 +801,12 @@ def gen_repeat(draw, env):
         if var is None:
             return []
         low = 0 if (kind != 'cycle' or prof['allow_zero_cycle']) else 1
-        count = ['num', str(draw(st.integers(low, 5)))]
+        count = ['num', str(rint(draw, low, 5))]
         if kind == 'interp':
             spec = ['interp', count, var, num_expr(draw, env, 1),
                     num_expr(draw, env, 1)]
         else:
-            start = None if draw(st.booleans()) else num_expr(draw, env, 1)
+            start = None if flip(draw) else num_expr(draw, env, 1)
             spec = ['cycle', count, var, start]
         inner = enter_loop(env, kind, var)
         body = gen_block(draw, inner)
@@ -790,7 +818,7 @@ def gen_repeat(draw, env):
         counter = pick_loop_var(draw, env, COUNTERS)
         if counter is None:
             return []
-        limit = draw(st.integers(0, 4))
+        limit = rint(draw, 0, 4)
         pre.append(['assign', counter, ['num', '0']])
         env.defined.add(counter)
         env.note_assigned(counter)
@@ -800,7 +828,7 @@ def gen_repeat(draw, env):
                                     ['num', '1']]]
         if kind == 'while':
             cond = ['bin', '<', ['var', counter], ['num', str(limit)]]
-            if draw(st.booleans()):
+            if flip(draw):
                 cond = ['bin', 'and', cond, bool_expr(draw, env, 1)]
             body = body + [bump]
             spec = ['while', cond]
@@ -817,7 +845,7 @@ def gen_repeat(draw, env):
     if light_var is None:
         return []
     with_spec = None
-    if draw(st.booleans()):
+    if flip(draw):
         with_spec = gen_with_spec(draw, env, {light_var})
         if (with_spec and with_spec[0] == 'cycle'
                 and not prof['allow_zero_cycle']):
@@ -828,9 +856,9 @@ def gen_repeat(draw, env):
         spec = [kind, light_var, with_spec]
     else:
         sources = []
-        for _ in range(draw(st.integers(1, 3))):
-            which = draw(st.sampled_from(['light', 'light', 'group',
-                                          'location']))
+        for _ in range(rint(draw, 1, 3)):
+            which = pick(draw, ['light', 'light', 'group',
+                                          'location'])
             if which == 'light':
                 sources.append(['light', light_name(draw, env)])
             else:
@@ -853,11 +881,11 @@ def gen_repeat(draw, env):
     body = []
     if kind in ('groups', 'locations'):
         which = 'group' if kind == 'groups' else 'location'
-        body.append(['action', draw(st.sampled_from(['set', 'on', 'off'])),
+        body.append(['action', pick(draw, ['set', 'on', 'off']),
                      [[which, ['var', light_var]]]])
         body.append(['print', ['var', light_var]])
     else:
-        body.append(['action', draw(st.sampled_from(['set', 'on', 'off'])),
+        body.append(['action', pick(draw, ['set', 'on', 'off']),
                      [['light', ['var', light_var]]]])
     if with_spec is not None:
         body.append(['print', ['var', with_spec[1]]])
@@ -880,7 +908,7 @@ def gen_call(draw, env):
     names = callable_routines(env)
     if not names:
         return []
-    name = draw(st.sampled_from(names))
+    name = pick(draw, names)
     call = call_expr(draw, env, name, 1)
     for assigned in may_assign(env, name):
         env.known.pop(assigned, None)
@@ -897,7 +925,7 @@ def gen_break(draw, env):
     if (not env.prof['allow_break_in_light_loop'] and
             any(k.startswith('light') for k in env.loop_kinds)):
         return []
-    if draw(st.booleans()):
+    if flip(draw):
         return [['if', bool_expr(draw, env, 1), [['break']], None]]
     return [['break']]
 
@@ -917,21 +945,21 @@ def gen_return(draw, env):
 def gen_define(draw, env):
     if env.in_routine() or env.depth > 0:
         return []
-    kind = draw(st.sampled_from(['num', 'num', 'str', 'pat', 'alias']))
+    kind = pick(draw, ['num', 'num', 'str', 'pat', 'alias'])
     name = env.fresh('M')
     if kind == 'num':
-        lit = draw(st.sampled_from([int_lit(draw, 0, 100), float_lit(draw)]))
+        lit = pick(draw, [int_lit(draw, 0, 100), float_lit(draw)])
         env.macros_num[name] = lit[1]
         return [['define', name, lit]]
     if kind == 'str':
-        value = draw(st.sampled_from(env.labels + ['Nope']))
+        value = pick(draw, env.labels + ['Nope'])
         env.macros_str[name] = value
         return [['define', name, ['str', value]]]
     if kind == 'pat':
         env.macros_pat.append(name)
-        return [['define', name, ['pat', draw(st.sampled_from(PATTERNS))]]]
+        return [['define', name, ['pat', pick(draw, PATTERNS)]]]
     if env.macros_num:
-        other = draw(st.sampled_from(sorted(env.macros_num)))
+        other = pick(draw, sorted(env.macros_num))
         env.macros_num[name] = env.macros_num[other]
         return [['define', name, ['macro', other]]]
     return []
@@ -940,13 +968,13 @@ def gen_define(draw, env):
 def gen_routine(draw, env):
     if env.in_routine() or env.depth > 0 or not env.prof['routines']:
         return []
-    function = draw(st.booleans())
+    function = flip(draw)
     name = env.fresh('f' if function else 'r')
-    n_params = draw(st.sampled_from([0, 1, 1, 2, 2, 3, 4]))
+    n_params = pick(draw, [0, 1, 1, 2, 2, 3, 4])
     pool = NUM_NAMES + ['lt1']
     params = list(draw(st.permutations(pool)))[:n_params]
     recursive = (function and env.prof['recursion']
-                 and draw(st.integers(0, 3)) == 0)
+                 and rint(draw, 0, 3) == 0)
     if recursive:
         params = ['n'] + params[:2]
     ptypes = ['name' if p.startswith('lt') else 'num' for p in params]
@@ -980,7 +1008,7 @@ def gen_routine(draw, env):
                         else num_expr(draw, inner, 1))
         base = ['if', ['bin', '<=', ['var', 'n'], ['num', '0']],
                 [['return', base_value]], None]
-        rec = ['assign', draw(st.sampled_from(NUM_NAMES)),
+        rec = ['assign', pick(draw, NUM_NAMES),
                ['bin', '+', ['call', name, args], ['num', '1']]]
         inner.assigned.add(rec[1])
         inner.defined.add(rec[1])
@@ -999,7 +1027,7 @@ def gen_routine(draw, env):
 def gen_units(draw, env):
     if not env.prof['units']:
         return []
-    mode = draw(st.sampled_from(['logical', 'raw', 'rgb']))
+    mode = pick(draw, ['logical', 'raw', 'rgb'])
     pre = [['setreg', 'hue', int_lit(draw, 0, 360)],
            ['setreg', 'saturation', int_lit(draw, 0, 100)],
            ['setreg', 'brightness', int_lit(draw, 0, 100)],
@@ -1044,10 +1072,10 @@ def statement_kinds(env):
 
 def gen_block(draw, env, top=False):
     limit = env.prof['max_top'] if env.depth == 0 else env.prof['max_block']
-    count = draw(st.integers(1 if env.depth else 2, limit))
+    count = rint(draw, 1 if env.depth else 2, limit)
     body = []
     for _ in range(count):
-        kind = draw(st.sampled_from(statement_kinds(env)))
+        kind = pick(draw, statement_kinds(env))
         body += GENERATORS[kind](draw, env)
     if not body:
         body = [['wait']]
@@ -1063,8 +1091,8 @@ def programs(draw, prof=None, need=()):
     if prof['routines']:
         # A prelude makes routines (and globals for them to hide) available
         # early, so that calls are common in what follows.
-        for _ in range(draw(st.integers(0, prof.get('prelude_routines', 3)))):
-            if draw(st.booleans()):
+        for _ in range(rint(draw, 0, prof.get('prelude_routines', 3))):
+            if flip(draw):
                 body += gen_assign(draw, env)
             body += gen_routine(draw, env)
     body += gen_block(draw, env)
